@@ -22,6 +22,8 @@ pub enum CodecKind {
     Fixed,
     Postcard,
     Bincode,
+    /// hand-written, variable width, shortest possible headers (a Feed header is 4 bytes)
+    Packed,
 }
 
 impl CodecKind {
@@ -30,6 +32,7 @@ impl CodecKind {
             CodecKind::Fixed => "fixed",
             CodecKind::Postcard => "postcard",
             CodecKind::Bincode => "bincode",
+            CodecKind::Packed => "packed",
         }
     }
     pub fn parse(s: &str) -> Option<Self> {
@@ -37,10 +40,15 @@ impl CodecKind {
             "fixed" => CodecKind::Fixed,
             "postcard" => CodecKind::Postcard,
             "bincode" => CodecKind::Bincode,
+            "packed" => CodecKind::Packed,
             _ => return None,
         })
     }
-    pub const ALL: [CodecKind; 3] = [CodecKind::Fixed, CodecKind::Postcard, CodecKind::Bincode];
+    pub const ALL: [CodecKind; 4] = [CodecKind::Fixed, CodecKind::Postcard, CodecKind::Bincode, CodecKind::Packed];
+    /// one of the codecs bundled with the crate (the subject of C20)
+    pub fn is_bundled(self) -> bool {
+        matches!(self, CodecKind::Postcard | CodecKind::Bincode)
+    }
 }
 
 /// Fixed-width: ids are `addr:u16be gen:u16be`, incarnation u16be, tags one byte.
@@ -194,6 +202,178 @@ impl Codec<VId> for FixedCodec {
     }
 }
 
+/// Variable width, as short as it gets: an identity with `addr < 15, gen < 16` is one byte (`addr * 16 + gen`),
+/// any other `0xFF addr:u16be gen:u16be`; an incarnation `< 255` is one byte, any other `0xFF u16be`; tags one
+/// byte. Encoding checks the space up front and writes nothing on failure.
+pub struct PackedCodec;
+
+fn packed_id(id: &VId, v: &mut Vec<u8>) {
+    if id.addr < 15 && id.gen < 16 {
+        v.push((id.addr * 16 + id.gen) as u8);
+    } else {
+        v.push(255);
+        v.extend_from_slice(&id.addr.to_be_bytes());
+        v.extend_from_slice(&id.gen.to_be_bytes());
+    }
+}
+fn packed_inc(n: u16, v: &mut Vec<u8>) {
+    if n < 255 {
+        v.push(n as u8);
+    } else {
+        v.push(255);
+        v.extend_from_slice(&n.to_be_bytes());
+    }
+}
+fn unpack_id(buf: &mut impl Buf) -> Result<VId, CodecErr> {
+    if buf.remaining() < 1 {
+        return err("short id");
+    }
+    let a = buf.get_u8();
+    if a == 255 {
+        if buf.remaining() < 4 {
+            return err("short id");
+        }
+        let x = buf.get_u16();
+        let y = buf.get_u16();
+        Ok(VId::new(x, y))
+    } else {
+        Ok(VId::new((a / 16) as u16, (a % 16) as u16))
+    }
+}
+fn unpack_inc(buf: &mut impl Buf) -> Result<u16, CodecErr> {
+    if buf.remaining() < 1 {
+        return err("short inc");
+    }
+    let a = buf.get_u8();
+    if a == 255 {
+        if buf.remaining() < 2 {
+            return err("short inc");
+        }
+        Ok(buf.get_u16())
+    } else {
+        Ok(a as u16)
+    }
+}
+
+impl Codec<VId> for PackedCodec {
+    type Error = CodecErr;
+
+    fn encode_header(&mut self, h: &Header<VId>, mut buf: impl BufMut) -> Result<(), CodecErr> {
+        let mut v = Vec::with_capacity(16);
+        packed_id(&h.src, &mut v);
+        packed_inc(h.src_incarnation, &mut v);
+        packed_id(&h.dst, &mut v);
+        match &h.message {
+            Message::Ping(n) => v.extend_from_slice(&[0, *n]),
+            Message::Ack(n) => v.extend_from_slice(&[1, *n]),
+            Message::PingReq { target, probe_number } => {
+                v.push(2);
+                packed_id(target, &mut v);
+                v.push(*probe_number);
+            }
+            Message::IndirectPing { origin, probe_number } => {
+                v.push(3);
+                packed_id(origin, &mut v);
+                v.push(*probe_number);
+            }
+            Message::IndirectAck { target, probe_number } => {
+                v.push(4);
+                packed_id(target, &mut v);
+                v.push(*probe_number);
+            }
+            Message::ForwardedAck { origin, probe_number } => {
+                v.push(5);
+                packed_id(origin, &mut v);
+                v.push(*probe_number);
+            }
+            Message::Announce => v.push(6),
+            Message::Feed => v.push(7),
+            Message::Gossip => v.push(8),
+            Message::Broadcast => v.push(9),
+            Message::TurnUndead => v.push(10),
+        }
+        if buf.remaining_mut() < v.len() {
+            return err("no space for header");
+        }
+        buf.put_slice(&v);
+        Ok(())
+    }
+
+    fn decode_header(&mut self, mut buf: impl Buf) -> Result<Header<VId>, CodecErr> {
+        let src = unpack_id(&mut buf)?;
+        let src_incarnation = unpack_inc(&mut buf)?;
+        let dst = unpack_id(&mut buf)?;
+        if buf.remaining() < 1 {
+            return err("short tag");
+        }
+        let tag = buf.get_u8();
+        let message = match tag {
+            0 | 1 => {
+                if buf.remaining() < 1 {
+                    return err("short probe number");
+                }
+                let n = buf.get_u8();
+                if tag == 0 {
+                    Message::Ping(n)
+                } else {
+                    Message::Ack(n)
+                }
+            }
+            2..=5 => {
+                let id = unpack_id(&mut buf)?;
+                if buf.remaining() < 1 {
+                    return err("short probe number");
+                }
+                let n = buf.get_u8();
+                match tag {
+                    2 => Message::PingReq { target: id, probe_number: n },
+                    3 => Message::IndirectPing { origin: id, probe_number: n },
+                    4 => Message::IndirectAck { target: id, probe_number: n },
+                    _ => Message::ForwardedAck { origin: id, probe_number: n },
+                }
+            }
+            6 => Message::Announce,
+            7 => Message::Feed,
+            8 => Message::Gossip,
+            9 => Message::Broadcast,
+            10 => Message::TurnUndead,
+            _ => return err("bad tag"),
+        };
+        Ok(Header { src, src_incarnation, dst, message })
+    }
+
+    fn encode_member(&mut self, m: &Member<VId>, mut buf: impl BufMut) -> Result<(), CodecErr> {
+        let mut v = Vec::with_capacity(9);
+        packed_id(m.id(), &mut v);
+        packed_inc(m.incarnation(), &mut v);
+        v.push(match m.state() {
+            State::Alive => 0,
+            State::Suspect => 1,
+            State::Down => 2,
+        });
+        if buf.remaining_mut() < v.len() {
+            return err("no space for member");
+        }
+        buf.put_slice(&v);
+        Ok(())
+    }
+
+    fn decode_member(&mut self, mut buf: impl Buf) -> Result<Member<VId>, CodecErr> {
+        let id = unpack_id(&mut buf)?;
+        let inc = unpack_inc(&mut buf)?;
+        if buf.remaining() < 1 {
+            return err("short member");
+        }
+        let st = match buf.get_u8() {
+            0 => State::Alive,
+            1 => State::Suspect,
+            2 => State::Down,
+            _ => return err("bad state"),
+        };
+        Ok(Member::new(id, inc, st))
+    }
+}
+
 /// One type for all three so that a single `Foca<..>` instantiation covers them.
 pub struct AnyCodec(pub CodecKind);
 
@@ -209,6 +389,7 @@ impl Codec<VId> for AnyCodec {
     fn encode_header(&mut self, h: &Header<VId>, buf: impl BufMut) -> Result<(), CodecErr> {
         match self.0 {
             CodecKind::Fixed => FixedCodec.encode_header(h, buf),
+            CodecKind::Packed => PackedCodec.encode_header(h, buf),
             CodecKind::Postcard => foca::PostcardCodec.encode_header(h, buf).map_err(|e| CodecErr(e.to_string())),
             CodecKind::Bincode => bc().encode_header(h, buf).map_err(|e| CodecErr(e.to_string())),
         }
@@ -216,6 +397,7 @@ impl Codec<VId> for AnyCodec {
     fn decode_header(&mut self, buf: impl Buf) -> Result<Header<VId>, CodecErr> {
         match self.0 {
             CodecKind::Fixed => FixedCodec.decode_header(buf),
+            CodecKind::Packed => PackedCodec.decode_header(buf),
             CodecKind::Postcard => foca::PostcardCodec.decode_header(buf).map_err(|e| CodecErr(e.to_string())),
             CodecKind::Bincode => bc().decode_header(buf).map_err(|e| CodecErr(e.to_string())),
         }
@@ -223,6 +405,7 @@ impl Codec<VId> for AnyCodec {
     fn encode_member(&mut self, m: &Member<VId>, buf: impl BufMut) -> Result<(), CodecErr> {
         match self.0 {
             CodecKind::Fixed => FixedCodec.encode_member(m, buf),
+            CodecKind::Packed => PackedCodec.encode_member(m, buf),
             CodecKind::Postcard => foca::PostcardCodec.encode_member(m, buf).map_err(|e| CodecErr(e.to_string())),
             CodecKind::Bincode => bc().encode_member(m, buf).map_err(|e| CodecErr(e.to_string())),
         }
@@ -230,6 +413,7 @@ impl Codec<VId> for AnyCodec {
     fn decode_member(&mut self, buf: impl Buf) -> Result<Member<VId>, CodecErr> {
         match self.0 {
             CodecKind::Fixed => FixedCodec.decode_member(buf),
+            CodecKind::Packed => PackedCodec.decode_member(buf),
             CodecKind::Postcard => foca::PostcardCodec.decode_member(buf).map_err(|e| CodecErr(e.to_string())),
             CodecKind::Bincode => bc().decode_member(buf).map_err(|e| CodecErr(e.to_string())),
         }
